@@ -82,6 +82,8 @@ class Static:
             self.header_of[st.lineno] = header
             self.scope_of[st.lineno] = scope
             self.guards_of[st.lineno] = [g for prev in body[:idx] if isinstance(prev, ast.If) for g in self._guard_lines(prev)]
+            if isinstance(st, (ast.If, ast.While)) and isinstance(st.test, ast.Constant):
+                raise Unsupported("constant test (no decision is taken on that line)")
             if isinstance(st, ast.If):
                 self._check_expr(st.test)
                 self._block(st.body, scope, st.lineno)
@@ -297,22 +299,13 @@ class Monitor:
         self.nframes += 1
         parent = self.stack[-1] if self.stack else None
         self.stack.append(self.nframes)
-        args = None
-        if code.co_name == "__init__":
-            args = {"self": id(sys._getframe(1).f_locals.get("self"))}
-        self.events.append(("start", self.nframes, parent, (code.co_name, code.co_firstlineno), args, self._count()))
+        self.events.append(("start", self.nframes, parent, (code.co_name, code.co_firstlineno), None, self._count()))
 
     def _on_return(self, code, offset, retval):
         if self.events is None:
             return
         fr = self.stack.pop()
         self.events.append(("ret", fr, None, None, None, self._count()))
-
-    def _on_unwind(self, code, offset, exc):
-        if self.events is None:
-            return
-        fr = self.stack.pop()
-        self.events.append(("unwind", fr, None, None, None, self._count()))
 
     def _on_line(self, code, line):
         if self.events is None:
